@@ -625,4 +625,24 @@ def protocol_body(prog, cls, name, _depth=0):
             if isinstance(c.func, ast.Attribute) and isinstance(c.func.value, ast.Name) and c.func.value.id == "self" \
                     and sorted(passed) == sorted(params) and all(k.arg == norm(k.value) for k in c.keywords):
                 return protocol_body(prog, cls, c.func.attr, _depth + 1)
+    # third form: locals are saved, the work is one call of self._helper(<own parameters>) inside try, and the
+    # finally clause restores what was saved
+    if body and isinstance(body[-1], ast.Try) and body[-1].finalbody and not body[-1].handlers and len(body[-1].body) == 1 \
+            and _depth < 2:
+        pre, tr = body[:-1], body[-1]
+        st = tr.body[0]
+        c = st.value if isinstance(st, (ast.Expr, ast.Return)) else None
+
+        def local_only(n):
+            if isinstance(n, ast.Assign):
+                return all(isinstance(t_, ast.Name) for t_ in n.targets)
+            if isinstance(n, ast.If):
+                return all(local_only(x) for x in n.body + n.orelse)
+            return False
+        if isinstance(c, ast.Call) and isinstance(c.func, ast.Attribute) and isinstance(c.func.value, ast.Name) \
+                and c.func.value.id == "self" and all(local_only(x) for x in pre):
+            params = [a.arg for a in f.node.args.args[1:]]
+            passed = [norm(a) for a in c.args] + [norm(k.value) for k in c.keywords]
+            if sorted(passed) == sorted(params) and all(k.arg == norm(k.value) for k in c.keywords):
+                return protocol_body(prog, cls, c.func.attr, _depth + 1)
     return f, body
